@@ -12,7 +12,7 @@ JOBS = 2
 RERUNS = {'quick': 30, 'thorough': 200}
 MAX_HANDLE = 60
 FIXTURE_KIND = 'elf'
-QUICK_N = 2200
+QUICK_N = 3500
 CPU_LIMIT = 10
 DEP_EXEMPT = True     # the property says "in libabigail code": a crash with no libabigail frame is counted as in-dependency
 LEGAL_READS = ()
